@@ -9,6 +9,7 @@ import (
 	"time"
 
 	"github.com/deepteams/webp"
+	"github.com/deepteams/webp/internal/container"
 	"github.com/deepteams/webp/mux"
 	"github.com/deepteams/webp/verifx/vx"
 )
@@ -286,6 +287,54 @@ func checkC14(args []string) {
 		}
 		files = append(files, fc)
 		pending[id] = pend{c, out}
+	}
+	// the frame-count limit: whatever number of frames the muxer accepts, the assembled file demuxes back to that
+	// many frames through both parsers (frame k has duration k mod 1000 and is the token the model calls 2)
+	if run.Replay == "" {
+		m := mux.NewMuxer()
+		accepted := 0
+		for k := 0; k < 10050; k++ {
+			if err := m.AddFrame(toks.data[2], &mux.FrameOptions{Duration: k % 1000}); err != nil {
+				break
+			}
+			accepted++
+			if accepted < 9998 && accepted != 5000 {
+				continue
+			}
+			var buf bytes.Buffer
+			name := fmt.Sprintf("frame-limit: %d frames accepted by AddFrame", accepted)
+			run.Eval(name)
+			if err := m.Assemble(&buf); err != nil {
+				run.Note("muxer accepts %d frames and then refuses to assemble them (an error, not a corrupt file): %v", accepted, err)
+				continue
+			}
+			d, derr := mux.NewDemuxer(buf.Bytes())
+			if derr != nil {
+				run.Violate("frame-limit|demuxer rejects muxer output", fmt.Sprintf("%s: mux.NewDemuxer fails on the assembled file: %v", name, derr), name)
+				break
+			}
+			ok := d.NumFrames() == accepted
+			for _, i := range []int{0, accepted / 2, accepted - 1} {
+				fi, err := d.Frame(i)
+				if err != nil || fi.Duration != i%1000 || !bytes.Equal(fi.Data, toks.img[2]) {
+					ok = false
+				}
+			}
+			if !ok {
+				run.Violate("frame-limit|demuxed frames differ", fmt.Sprintf("%s: the demuxer reports %d frames or other frame contents", name, d.NumFrames()), name)
+				break
+			}
+			p, perr := container.NewParser(buf.Bytes())
+			if perr != nil {
+				run.Violate("frame-limit|container parser rejects muxer output", fmt.Sprintf("%s: container.NewParser fails on the assembled file: %v", name, perr), name)
+				break
+			}
+			if len(p.Frames()) != accepted {
+				run.Violate("frame-limit|parsers disagree", fmt.Sprintf("%s: container.NewParser reports %d frames", name, len(p.Frames())), name)
+				break
+			}
+		}
+		run.Cov["frames_accepted_by_the_muxer_at_the_limit"] = accepted
 	}
 	// files laid out by the TLA+ container writer (spec/RiffW.tla; reader o writer = identity is model-checked there):
 	// both real parsers must report exactly the description the writer was given.
